@@ -13,7 +13,7 @@
     correspondence check for binary64). *)
 From HP Require Import Base.Bytes Base.Utf8 Base.Num Model.Scanner Model.Parser Model.Elements Model.Dates
      Model.Writer Model.Reporters Spec.PrintSpec
-     Proofs.PrintDates Proofs.PrintNormal Proofs.PrintMain Proofs.PrintZNum Proofs.PrintExamples Proofs.PrintRun.
+     Proofs.PrintDates Proofs.PrintNormal Proofs.PrintMain Proofs.PrintZNum Proofs.PrintExamples Proofs.PrintRun Proofs.PrintLong.
 From HP Require Import Model.Cli.
 
 (** "foods": every entry name the parser delivers, for ANY input, is in the normal form print relies on *)
@@ -94,25 +94,35 @@ Theorem print_reads_back_log :
 Proof. exact PrintMain.print_reads_back_log. Qed.
 Print Assumptions print_reads_back_log.
 
-(** the vocabulary above is the command's: with standard output that never fails and no period set,
-    [print] on a log file read as the days [L] writes exactly [print_output c L] and exits with status Ok *)
+(** the vocabulary above is the command's: with standard output that never fails, [print] on a log
+    file read as the days [L] writes exactly [print_output c] of the days of the period and exits Ok *)
 Theorem run_print_output :
   forall (NM : Num) (w : world) (op : options) (c : rconfig) (data : bytes) (toks : list ltoken)
          (L : list (lognode NM)),
     print_setting w op data toks -> read_log NM toks data = Some L ->
-    run_log NM w op (rep_print NM c) = {| out_stdout := print_output NM c L; out_status := Ok |}.
+    run_log NM w op (rep_print NM c)
+    = {| out_stdout := print_output NM c (filter (in_period NM op) L); out_status := Ok |}.
 Proof. exact PrintRun.run_print_output. Qed.
 Print Assumptions run_print_output.
 
-(** C14 as a statement about two runs of the command: feed the standard output of the first run back
-    as the log file, under the same options; the second run succeeds and writes the same bytes *)
+(** and a log file that [read_log] rejects makes the command fail: [read_log] is exactly "readable" *)
+Theorem run_print_fails :
+  forall (NM : Num) (w : world) (op : options) (c : rconfig) (data : bytes) (toks : list ltoken),
+    print_setting w op data toks -> read_log NM toks data = None ->
+    exists e, out_status (run_log NM w op (rep_print NM c)) = Failed e.
+Proof. exact PrintRun.run_print_fails. Qed.
+Print Assumptions run_print_fails.
+
+(** C14 as a statement about two runs of the command, any period: feed the standard output of the
+    first run back as the log file, under the same options; the second run succeeds and writes the
+    same bytes *)
 Theorem run_print_twice_log :
   forall (NM : Num), FmtStable NM ->
   forall (w1 w2 : world) (op : options) (c : rconfig) (data : bytes) (toks : list ltoken) (L : list (lognode NM)),
     rc_date c = toks ->
     print_setting w1 op data toks -> read_log NM toks data = Some L ->
-    Forall (fun d => Forall (fun mp => documented_note mp = true) (notes_of NM d)) L ->
-    Forall (fun d => Forall (fun l => (lengthN l < max_token)%N) (day_lines NM c d)) L ->
+    Forall (fun d => Forall (fun mp => documented_note mp = true) (notes_of NM d)) (filter (in_period NM op) L) ->
+    Forall (fun d => Forall (fun l => (lengthN l < max_token)%N) (day_lines NM c d)) (filter (in_period NM op) L) ->
     print_setting w2 op (out_stdout (run_log NM w1 op (rep_print NM c))) toks ->
     run_log NM w2 op (rep_print NM c) = run_log NM w1 op (rep_print NM c)
     /\ out_status (run_log NM w1 op (rep_print NM c)) = Ok.
@@ -145,3 +155,13 @@ Theorem print_reads_back_refuted_layout :
     /\ read_log ZNum toks (print_output ZNum (cfg toks) L) = Some [].
 Proof. exact PrintExamples.print_reads_back_refuted_layout. Qed.
 Print Assumptions print_reads_back_refuted_layout.
+
+(** FALSE without the line-length hypothesis: a readable log without notes (the same 65528-byte food
+    twice in a day) whose printed form (the two lines merged, one byte longer) the tool cannot read *)
+Theorem print_reads_back_refuted_long_line :
+  exists (data : bytes) (L : list (lognode ZNum)),
+    read_log ZNum toks0 data = Some L
+    /\ Forall (fun d => Forall (fun mp => documented_note mp = true) (notes_of ZNum d)) L
+    /\ read_log ZNum toks0 (print_output ZNum (cfg toks0) L) = None.
+Proof. exact PrintLong.print_reads_back_refuted_long_line. Qed.
+Print Assumptions print_reads_back_refuted_long_line.
